@@ -12,12 +12,12 @@ MAP = "src/map.rs"
 SET = "src/set.rs"
 m("erase-no-reflect", RAW,
   "            lo.removing(&item.bucket.clone(), |table| table.erase(item.bucket));",
-  "            if lo.table.buckets() >= 64 {\n                lo.table.erase(item.bucket);\n            } else {\n                lo.removing(&item.bucket.clone(), |table| table.erase(item.bucket));\n            }",
-  ["C05"], "retain removing an element that still lives in an old table of >= 64 buckets and lies ahead of the move cursor, then further inserts")
+  "            if lo.table.buckets() >= 1024 {\n                lo.table.erase(item.bucket);\n            } else {\n                lo.removing(&item.bucket.clone(), |table| table.erase(item.bucket));\n            }",
+  ["C05"], "retain removing an element that still lives in an old table of >= 1024 buckets and lies ahead of the move cursor, then further inserts")
 m("find-ignores-old", RAW,
   "        if let Some(OldTable { ref table, .. }) = self.leftovers {\n            table.find(hash, eq).map(|bucket| Bucket {",
-  "        if let Some(OldTable { ref table, .. }) = self.leftovers.as_ref().filter(|lo| lo.table.len() > 1 || lo.table.buckets() < 256) {\n            table.find(hash, eq).map(|bucket| Bucket {",
-  ["C01"], "a lookup of the very last element left in an old table of >= 256 buckets")
+  "        if let Some(OldTable { ref table, .. }) = self.leftovers.as_ref().filter(|lo| lo.table.len() > 1 || lo.table.buckets() < 4096) {\n            table.find(hash, eq).map(|bucket| Bucket {",
+  ["C01"], "a lookup of the very last element left in an old table of >= 4096 buckets")
 m("len-uses-cursor", RAW,
   "        self.table.len() + self.leftovers.as_ref().map_or(0, |t| t.table.len())",
   "        self.table.len() + self.leftovers.as_ref().map_or(0, |t| t.table.len().min(t.table.buckets() - 1))",
